@@ -191,6 +191,10 @@ resp0_ctx_send(void *arg, nni_aio *aio)
 
 	if (!p->busy) {
 		p->busy = true;
+		if (p->id == s->ctx.pipe_id) {
+			// The socket's own response would have to wait.
+			nni_pollable_clear(&s->writable);
+		}
 		len     = nni_msg_len(msg);
 		nni_aio_set_msg(&p->aio_send, msg);
 		nni_pipe_send(p->npipe, &p->aio_send);
@@ -458,7 +462,11 @@ resp0_ctx_recv(void *arg, nni_aio *aio)
 	ctx->btrace_len = len;
 	ctx->pipe_id    = p->id;
 	if (ctx == &s->ctx) {
-		nni_pollable_raise(&s->writable);
+		if (!p->busy) {
+			nni_pollable_raise(&s->writable);
+		} else {
+			nni_pollable_clear(&s->writable);
+		}
 	}
 	nni_mtx_unlock(&s->mtx);
 
@@ -548,8 +556,12 @@ resp0_pipe_recv_cb(void *arg)
 	nni_msg_header_clear(msg);
 	ctx->pipe_id = p->id;
 
-	if ((ctx == &s->ctx) && (!p->busy)) {
-		nni_pollable_raise(&s->writable);
+	if (ctx == &s->ctx) {
+		if (!p->busy) {
+			nni_pollable_raise(&s->writable);
+		} else {
+			nni_pollable_clear(&s->writable);
+		}
 	}
 	nni_mtx_unlock(&s->mtx);
 
